@@ -50,11 +50,15 @@ def csLookup (name : String) : Option CS :=
 /-- `next(iter(self.csmap.values()))`. -/
 def csDefault : CS := (PREDEFINED_COLORSPACE.head?).getD ("DeviceGray", 1)
 
+/-- What `q` saves: `(ctm, textstate.copy(), graphicstate.copy())`; the colour spaces live in the
+graphics state. -/
 structure Saved where
   ctm : Matrix
   ts : TextState
   scolor : Option Color
   ncolor : Option Color
+  scs : CS
+  ncs : CS
   deriving Repr, DecidableEq, Inhabited
 
 /-- Interpreter + device state. -/
@@ -67,7 +71,6 @@ structure MState where
   scs : CS
   ncs : CS
   gstack : List Saved
-  csstack : List (CS × CS)
   argstack : List Obj
   res : Res
   fuelOk : Bool
@@ -76,7 +79,7 @@ structure MState where
 /-- `init_resources` + `init_state(ctm)`. -/
 def MState.init (ctm : Matrix) (res : Res) : MState :=
   { ctm := ctm, dctm := ctm, ts := TextState.init, scolor := none, ncolor := none,
-    scs := csDefault, ncs := csDefault, gstack := [], csstack := [], argstack := [], res := res,
+    scs := csDefault, ncs := csDefault, gstack := [], argstack := [], res := res,
     fuelOk := true }
 
 /-! ### casting.py -/
@@ -199,21 +202,18 @@ def doSetColor (st : MState) (stroke : Bool) : MState :=
   else st
 
 /-- Body of a `do_*` method applied to exactly `arity` operands.
-`runForm` executes a form XObject (`interpreter.render_contents`) and returns its glyphs and whether
-the nesting budget sufficed. -/
-def call (env : Env) (runForm : Form → Matrix → Res → List Glyph × Bool) (st : MState) :
+`runForm` executes a form XObject (`interpreter.render_contents`) from the given initial state of
+the form's interpreter and returns its glyphs and whether the nesting budget sufficed. -/
+def call (env : Env) (runForm : Form → MState → List Glyph × Bool) (st : MState) :
     Op → List Obj → MState × List Glyph
   | .q, [] =>
-    ({ st with gstack := ⟨st.ctm, st.ts, st.scolor, st.ncolor⟩ :: st.gstack,
-               csstack := (st.scs, st.ncs) :: st.csstack }, [])
+    ({ st with gstack := ⟨st.ctm, st.ts, st.scolor, st.ncolor, st.scs, st.ncs⟩ :: st.gstack }, [])
   | .Q, [] =>
     match st.gstack with
     | [] => (st, [])
     | s :: rest =>
-      let st := { st with ctm := s.ctm, dctm := s.ctm, ts := s.ts, scolor := s.scolor, ncolor := s.ncolor, gstack := rest }
-      match st.csstack with
-      | [] => (st, [])
-      | (scs, ncs) :: crest => ({ st with scs := scs, ncs := ncs, csstack := crest }, [])
+      ({ st with ctm := s.ctm, dctm := s.ctm, ts := s.ts, scolor := s.scolor, ncolor := s.ncolor,
+                 scs := s.scs, ncs := s.ncs, gstack := rest }, [])
   | .cm, [a, b, c, d, e, f] =>
     match safeFloats [a, b, c, d, e, f] with
     | some [a, b, c, d, e, f] =>
@@ -343,7 +343,10 @@ def call (env : Env) (runForm : Form → Matrix → Res → List Glyph × Bool) 
         | some fm =>
           let matrix := fm.matrix.getD MATRIX_IDENTITY
           let res := fm.res.getD st.res
-          let (gs, ok) := runForm fm (mult_matrix matrix st.ctm) res
+          -- `init_resources` + `init_state(Matrix × ctm)`, then the caller's text and graphics state
+          let st0 : MState := { MState.init (mult_matrix matrix st.ctm) res with
+            ts := st.ts, scolor := st.scolor, ncolor := st.ncolor, scs := st.scs, ncs := st.ncs }
+          let (gs, ok) := runForm fm st0
           -- the sub-interpreter shares the device: `init_state` set the device CTM to the form's,
           -- `do_Do` gives the caller's back after `end_figure`
           ({ st with dctm := st.ctm, fuelOk := st.fuelOk && ok }, gs)
@@ -355,7 +358,7 @@ def call (env : Env) (runForm : Form → Matrix → Res → List Glyph × Bool) 
 def arity (o : Op) : Option Nat := lookup o.method arityTable
 
 /-- One iteration of the loop in `PDFPageInterpreter.execute`. -/
-def execTok (env : Env) (runForm : Form → Matrix → Res → List Glyph × Bool) (st : MState) :
+def execTok (env : Env) (runForm : Form → MState → List Glyph × Bool) (st : MState) :
     Tok → MState × List Glyph
   | .opnd .null => (st, [])   -- `null` reaches `execute` as an unknown keyword, not as an operand
   | .opnd o => ({ st with argstack := st.argstack ++ [o] }, [])
@@ -368,7 +371,7 @@ def execTok (env : Env) (runForm : Form → Matrix → Res → List Glyph × Boo
       let st := { st with argstack := rest }
       if args.length = n then call env runForm st o args else (st, [])
 
-def execToks (env : Env) (runForm : Form → Matrix → Res → List Glyph × Bool) :
+def execToks (env : Env) (runForm : Form → MState → List Glyph × Bool) :
     MState → List Tok → MState × List Glyph
   | st, [] => (st, [])
   | st, t :: rest =>
@@ -377,7 +380,7 @@ def execToks (env : Env) (runForm : Form → Matrix → Res → List Glyph × Bo
     (st2, g1 ++ g2)
 
 /-- `PDFContentParser` over several streams feeding `execute`: nothing is reset at a stream boundary. -/
-def execStreams (env : Env) (runForm : Form → Matrix → Res → List Glyph × Bool) :
+def execStreams (env : Env) (runForm : Form → MState → List Glyph × Bool) :
     MState → List (List Tok) → MState × List Glyph
   | st, [] => (st, [])
   | st, s :: rest =>
@@ -385,11 +388,12 @@ def execStreams (env : Env) (runForm : Form → Matrix → Res → List Glyph ×
     let (st2, g2) := execStreams env runForm st1 rest
     (st2, g1 ++ g2)
 
-/-- `render_contents` of a form body with a nesting budget (`fuel` levels of `Do` below this one). -/
-def runForm (env : Env) : Nat → Form → Matrix → Res → List Glyph × Bool
-  | 0, _, _, _ => ([], false)
-  | fuel + 1, fm, ctm, res =>
-    let (st, gs) := execToks env (runForm env fuel) (MState.init ctm res) fm.body
+/-- `execute` of a form body from the initial state `do_Do` prepared, with a nesting budget
+(`fuel` levels of `Do` below this one). -/
+def runForm (env : Env) : Nat → Form → MState → List Glyph × Bool
+  | 0, _, _ => ([], false)
+  | fuel + 1, fm, st0 =>
+    let (st, gs) := execToks env (runForm env fuel) st0 fm.body
     (gs, st.fuelOk)
 
 /-- `process_page` after the CTM has been chosen: `render_contents(page.resources, page.contents, ctm)`. -/
